@@ -21,7 +21,7 @@ variable (ko : KeyOps) (sha : Bytes → Bytes) (s s' : InScope) (kr v : Bytes)
 theorem InScope.addPair_00 (h : InScope.addPair ko sha 0 s (0x00 :: kr) v = some s') :
     kr = [] ∧ s.nonWitnessUtxo = none ∧ ∃ t, Tx.parse v = some t ∧ s' = { s with nonWitnessUtxo := some t } := by
   simp [InScope.addPair] at h
-  obtain ⟨a, b, c⟩ := h
+  obtain ⟨a, b, _, c⟩ := h
   cases ht : Tx.parse v with
   | none => rw [ht] at c; simp at c
   | some t => rw [ht] at c; simp at c; exact ⟨a, b, t, rfl, c.symm⟩
@@ -482,7 +482,7 @@ theorem InScope.addPair_canon_mode (ko : KeyOps) (sha : Bytes → Bytes) (c : Na
   · subst c00
     simp only [InScope.addPair] at h
     simp [hc0] at h
-    obtain ⟨rfl, hn, h⟩ := h
+    obtain ⟨rfl, hn, _, h⟩ := h
     split at h
     · -- streamed: only `_utxo` / `_txhash` are set
       cases hr : readVoutAll sha v (s.vout.getD 0) with
